@@ -35,7 +35,7 @@ def corpus():
         make_case("(Map ((s yes) (i 1)) ((s no) (i 0)))", [("set", "(s yes)"), ("set", "(s y)"), ("new", "(s no)")]),
         make_case("(PrefixMap (yes (i 1)) (no (i 0)))", [("set", "(s y)"), ("tset", "(ss no)"), ("set", "(s x)")]),
         make_case("(CoerceH float)", [("set", "(i 3)")]),
-        make_case("(Base (Enum (i 1) (i 2)))", [("set", "(arr 0)"), ("set", "(badeq 0)")]),
+        make_case("(Base (Enum (i 1) (i 2)))", [("set", "(nd 2 (2))"), ("set", "(badeq 0)")]),
         make_case("(Tuple Int Int)", [("set", "(ts (i 1) (i 2))"), ("set", "(ts (b 1) (i 2))")]),
         # a compound with a Map member is mapped: outside the model (run on the implementation + oracle only)
         "#" + make_case("(Either 0 Float (Map ((s yes) (i 1)) ((s no) (i 0))))", [("set", "(f 12)"), ("set", "(s yes)"), ("set", "(f 4)")]),
@@ -191,6 +191,25 @@ def ref_domain(t, w, ctx):
         mx = None if t[2] == "N" else int(t[2])
         return (type(w) is str and int(t[1]) <= len(w) and (mx is None or len(w) <= mx)
                 and (t[3] == "N" or re.match(V.REGEXES[int(t[3])], w) is not None))
+    if h == "Array":
+        if not isinstance(w, np.ndarray):
+            return False
+        if t[1] != "N" and str(w.dtype) != V.DTYPES[int(t[1])]:
+            return False
+        spec = V.shape_spec(t[2])
+        if spec is None:
+            return True
+        if len(spec) != w.ndim:
+            return False
+        for sp, d in zip(spec, w.shape):
+            if sp is None:
+                continue
+            if isinstance(sp, int):
+                if d != sp:
+                    return False
+            elif d < sp[0] or (sp[1] is not None and d > sp[1]):
+                return False
+        return True
     if h == "PrefixList":
         return isinstance(w, str) and str(w) in [V.dec(x) for x in t[1:]]
     if h == "PrefixMap":
@@ -280,6 +299,18 @@ def conv_ok(t, v, w, ctx):
         return any(conv_ok(a, v, w, ctx) and ref_domain(a, w, ctx) for a in t[1:])
     if h == "String":
         return isinstance(v, (str, int, float, complex)) and one_of(attempt(lambda: str(v)))
+    if h == "Array":
+        if w is v:
+            return True
+        if not isinstance(w, np.ndarray):
+            return False
+        if isinstance(v, np.ndarray):
+            return (t[1] != "N" and w.shape == v.shape and str(w.dtype) == V.DTYPES[int(t[1])]
+                    and bool(np.can_cast(v.dtype, w.dtype, casting=V.CASTINGS[int(t[3])])))
+        if isinstance(v, (list, tuple)):
+            a = attempt(lambda: np.asarray(v) if t[1] == "N" else np.asarray(v, V.DTYPES[int(t[1])]))
+            return bool(a) and a[0].shape == w.shape and a[0].dtype == w.dtype
+        return False
     if h in ("PrefixList", "PrefixMap"):
         keys = [V.dec(x) for x in t[1:]] if h == "PrefixList" else [V.dec(k) for k, _ in t[1:]]
         if not isinstance(v, str):
